@@ -881,3 +881,21 @@ def mapped_sequence(fn_node, expr):
                 else None
             return ast.unparse(found.src), over_x(found.elt, found.var), cond
     return None
+
+
+def activation_resumes(path: Path):
+    """[(index, 'send'|'throw', activation text)]: calls that resume the coroutine of an
+    activation -- ``<activation>.target.send(None)`` / ``.throw(<activation>.signal)``
+    after expansion of locals and helper parameters"""
+    result = []
+    for index, event in enumerate(path.events):
+        node = event.node
+        if event.kind != 'call' or not isinstance(node, ast.Call) or \
+                not isinstance(node.func, ast.Attribute) or \
+                node.func.attr not in ('send', 'throw'):
+            continue
+        receiver = value_expr(path, index, node.func.value)
+        if isinstance(receiver, ast.Attribute) and receiver.attr == 'target':
+            result.append((index, node.func.attr,
+                           normalise_state_aliases(ast.unparse(receiver.value))))
+    return result
